@@ -282,6 +282,20 @@ def rule_mismatch(ctx):
                f"{c.func.id}({', '.join(a)})", fj.loc(c))
     if len(calls) < 2:
         ctx.fail("create_jacobian_matrix: the two Jacobian siblings were not found")
+    fnp = ctx.repo.func(f"{NP}:newtonpf")
+    blk = next((n for n in ast.walk(fnp.node) if isinstance(n, ast.If) and "dist_slack" in norm(n.test, 60) and "len(ref)" in norm(n.test, 60)), None)
+    got = {norm(st.targets[0], 10): norm(st.value, 60).replace(" ", "") for st in (blk.body if blk else []) if isinstance(st, ast.Assign)}
+    ctx.ob(R, f"{NP}::newtonpf::further-references-become-pv", got.get("pv") == "r_[ref[1:],pv]" and got.get("ref") in ("ref[[0]]", "ref[:1]"),
+           f"with several reference buses: pv = {got.get('pv')}, ref = {got.get('ref')} (all but the first reference bus take part as PV buses)",
+           fnp.loc(blk) if blk is not None else fnp.loc())
+    fpa = ctx.repo.func("pandapower.powerflow:_run_pf_algorithm")
+    byp = next((n for n in ast.walk(fpa.node) if isinstance(n, ast.If) and any(not isinstance(st, ast.If) and any(isinstance(c, ast.Call) and norm(c.func, 40) == "_bypass_pf_and_set_results"
+                                                                                       for c in ast.walk(st)) for st in n.body)), None)
+    t = norm(byp.test, 400).replace(" ", "").replace('"', "'") if byp is not None else ""
+    ctx.ob(R, "pandapower.powerflow::_run_pf_algorithm::bypass-guard", "notoptions['distributed_slack']" in t,
+           "the bypass for nets with reference buses only is not taken with distributed_slack" if "notoptions['distributed_slack']" in t else
+           f"bypass condition `{t[:120]}` ignores distributed_slack: with reference buses only every machine just covers its local demand",
+           fpa.loc(byp) if byp is not None else fpa.loc())
     fn = ctx.repo.func(f"{CJ}:_create_J_without_numba")
     j10 = [st for st in ast.walk(fn.node) if isinstance(st, ast.Assign) and isinstance(st.targets[0], ast.Name) and st.targets[0].id == "J10"]
     rows = [st for st in ast.walk(fn.node) if isinstance(st, ast.Assign) and isinstance(st.targets[0], ast.Name) and st.targets[0].id == "rows_pvpq"]
@@ -332,6 +346,17 @@ def rule_xward(ctx):
            "distinct buses of in-service elements" if ok else
            f"`for {norm(lp.target)} in {norm(lp.iter, 80)}`: buses of out-of-service xwards are visited and a bus with two xwards is "
            "visited twice (the share is added once per visit)", fi.loc(lp))
+    # connected elements: in service only
+    conns = [n for n in ast.walk(lp) if isinstance(n, ast.Assign) and len(n.targets) == 1 and isinstance(n.targets[0], ast.Name) and n.targets[0].id == "conn"]
+    if not conns:
+        ctx.fail("_extract_dist_slack_pq_results: selection of the connected elements not found")
+    for i, n in enumerate(conns):
+        v = norm(n.value, 160).replace(" ", "")
+        ok = "in_service" in v and "bus" in v
+        ctx.ob(R, f"{RB}::_extract_dist_slack_pq_results::connected{i}", ok,
+               "elements at the bus: in service only" if ok else
+               f"`conn = {v[:90]}` also takes out-of-service elements: their set-points are subtracted from the bus demand although they are not part of it",
+               fi.loc(n))
     # total weight accumulations
     tw = [n for n in ast.walk(lp) if isinstance(n, ast.AugAssign) and isinstance(n.target, ast.Name) and n.target.id == "total_weight"]
     for i, n in enumerate(tw):
@@ -359,7 +384,14 @@ def rule_xward(ctx):
     for i, n in enumerate(sub):
         txt = expand(n.value).replace('"', "'")
         has_scaling = "scaling" in txt
-        has_sign = "sgen" in txt and ("-1" in txt or "- 1" in txt)
+        # generation convention exactly for sgen (storage, load, ward, xward are demand): the sign table of the bus aggregation (C01)
+        negs = set()
+        for x in ast.walk(n.value):
+            if isinstance(x, ast.IfExp) and isinstance(x.body, (ast.UnaryOp, ast.Constant)) and norm(x.body, 10).replace(" ", "") == "-1":
+                for c in ast.walk(x.test):
+                    if isinstance(c, ast.Constant) and isinstance(c.value, str):
+                        negs.add(c.value)
+        has_sign = negs == {"sgen"}
         ctx.ob(R, f"{RB}::_extract_dist_slack_pq_results::constant-demand{i}", has_scaling and has_sign,
                "constant demand: scaled, sgen negative" if has_scaling and has_sign else
                "the constant part subtracted from the bus demand " + ("ignores scaling" if not has_scaling else "") +
@@ -433,6 +465,10 @@ def variants(repo):
         V("ref rows dropped from residual", npf, replace_once("F = r_[mis[ref].real, mis[pv].real, mis[pq].real, mis[pq].imag]", "F = r_[mis[ref[1:]].real, mis[pv].real, mis[pq].real, mis[pq].imag]"), "residual-rows"),
         V("non-numba jacobian without weights", cj, replace_once("J = _create_J_without_numba(Ybus, V, ref, pvpq, pq, slack_weights, dist_slack)", "J = _create_J_without_numba(Ybus, V, ref, pvpq, pq, None, dist_slack)"), "_create_J_without_numba"),
         V("weighted gens not reference", nr, replace_once('ref_gens = union1d(internal["ref_gens"], gens_with_slack_weights)', 'ref_gens = internal["ref_gens"]'), "SW-REF"),
+        V("out-of-service neighbours subtracted", rb, replace_once("conn = net[e].loc[net[e].in_service & (net[e].bus == b)].index.values", "conn = net[e].index.values[net[e].bus.values == b]"), "connected0"),
+        V("storage counted as generation", rb, replace_once('p_bus -= p_elm.sum() * (-1 if e == "sgen" else 1)', 'p_bus -= p_elm.sum() * (-1 if e in ("sgen", "storage") else 1)'), "constant-demand0"),
+        V("only the second reference bus becomes pv", npf, replace_once("pv = r_[ref[1:], pv]", "pv = r_[ref[1], pv]"), "further-references-become-pv"),
+        V("bypass also with distributed slack", "pandapower/powerflow.py", replace_once("if pq.shape[0] == 0 and pv.shape[0] == 0 and not options['distributed_slack'] \\\n", "if pq.shape[0] == 0 and pv.shape[0] == 0 \\\n"), "bypass-guard"),
         V("share added to the whole column", rb, replace_once('net[res_].loc[idx, "p_mw"] += p_bus * elm_weight / total_weight', 'net[res_]["p_mw"] += p_bus * elm_weight / total_weight'), "share0"),
         V("total weight per element", rb, replace_once("total_weight += np.abs(net[e].loc[idx, 'slack_weight'].values).sum()", "total_weight += np.abs(net[e].loc[idx, 'slack_weight'].values)"), "total-weight0"),
         V("all xward buses visited", rb, replace_once("for b in np.unique(net[element].bus.values[net._is_elements[element]]):", "for b in net[element].bus.values:"), "_extract_dist_slack_pq_results::buses"),
